@@ -42,6 +42,16 @@ PROPS['C18'] = dict(
     level_note='Assumed: the seven regular expressions recognise their line forms (abstract match/group functions; group languages taken from the sub-patterns; checked bounded against an independent recogniser on whole streams); str.rstrip/strip/upper uninterpreted; len(set) uninterpreted.',
     not_decided=['TestRunTAP verdict fold is checked bounded only'],
 )
+PROPS['C12'] = dict(
+    modules=['specs.mtest', 'contracts.mtest', 'lemmas.mtest'],
+    bounded=['bounded.mtest'],
+    level='proof',
+    design_ref='DESIGN.md §4 C12',
+    technique='deductive: VCs from the real AST of the TestRun completion methods and the harness counters against the documented exit-code rule; tally / exit-status and slice-partition lemmas by induction / arithmetic; scheduling clauses not decided',
+    level_text='The classification rule (0/expected OK, 77 SKIP, 99 ERROR, other FAIL; should_fail inverts OK and FAIL only; a result already set is kept), the TAP exit-status rule, "exactly one counter per result", "exit status non-zero iff a bad result" and "the n slices partition the tests" are proved for all exit codes, flags and result sequences.',
+    level_note='NOT decided: exactly-once start, serial isolation and the job bound are properties of asyncio interleavings; TIMEOUT killing involves subprocesses and signals. Assumed: loggers do not touch the counters; time.time opaque; Python extended-slice semantics (checked bounded); get_tests plumbing around the slice step.',
+    not_decided=['each selected test started exactly once per repetition', 'no non-parallel test overlaps another test', 'never more running tests than jobs', 'TIMEOUT when the limit passes and the test is then terminated', 'printed totals / testlog.json text'],
+)
 
 # properties with no check yet or outside the technique, each with the reason
 NOT_APPLICABLE = {
